@@ -69,6 +69,14 @@ Theorem C19_lev_triangle :
 Proof. exact lev_triangle. Qed.
 Print Assumptions C19_lev_triangle.
 
+(* bounds: at least the length difference, at most the longer length *)
+Theorem C19_lev_bounds :
+  forall (A : Type) (eqb : A -> A -> bool) (s t : list A),
+  (length s <= lev eqb s t + length t /\ length t <= lev eqb s t + length s) /\
+  lev eqb s t <= Nat.max (length s) (length t).
+Proof. exact (fun A eqb s t => conj (lev_ge_diff A eqb s t) (lev_le_max A eqb s t)). Qed.
+Print Assumptions C19_lev_bounds.
+
 (* ... and the implementation's unbanded result inherits all three laws. *)
 Theorem C19_edit_distance_metric :
   forall (A : Type) (eqb : A -> A -> bool), (forall a b, reflect (a = b) (eqb a b)) ->
